@@ -1,7 +1,7 @@
 """C18 — every generated HDL file set is self-consistent and synthesizable Verilog.
 
 proof:          lean/BMV/Props/C18.lean — about the lint itself (BMV.Vlog.Lint / Elab / Sem):
-                wf_single_driver, wf_decidable, wf_total_partial (+ the full wf_total kept as a Prop),
+                wf_single_driver, wf_decidable, wf_total (full: elab_sigs_in_range + wf_total_of_resolved), lint_sound_undeclared,
                 and about the shared-object header model BMV.So: so_ports_agree (top-level connection list
                 = arch port list = processor port list, with widths and directions), so_module_agree /
                 queue_module_agree_iff / lfsr8_module_disagree (the shared object's own module against its
@@ -375,7 +375,7 @@ def run(rep):
                        "board flavors other than basys3; extra modules (etherbond, udpbond, bmapi, slow, ...)",
                        "files with generate/genvar, user functions, signed: channel shared object, chc/chw/wrd/wwr processors, "
                        "uart, float opcodes (addf, multf, divf, *f16, fps family)",
-                       "evaluation-class errors (out-of-range dynamic index, division by zero): wf_total is proved only in part"],
+                       "evaluation-class errors (out-of-range dynamic index, division by zero): excluded from wf_total on purpose"],
     })
     if missing_ops:
         rep.notes.append("static opcodes in no generated machine: %s" % missing_ops)
